@@ -365,6 +365,16 @@ def run_check(prop, tier, seed, replay=None):
     else:
         broken.append(("proof", props_v, "theorem file missing"))
 
+    # ---- thorough tier: Coq's independent checker on the compiled theorem file and all its dependencies
+    coqchk_info = None
+    if tier == "thorough" and not replay and os.path.exists(os.path.join(build.COQ, props_v[:-2] + ".vo")):
+        st, ax, tail = build.coqchk(props_v, timeout=int(os.environ.get("VERIF_COQCHK_TIMEOUT", "1500")))
+        coqchk_info = {"status": st, "axioms": ax, "note": tail if st != "ok" else ""}
+        if st == "failed":
+            broken.append(("coqchk", props_v, tail))
+        # the axioms coqchk lists are those of every library loaded (wider than Print Assumptions of the theorems): they are
+        # recorded in the evidence, the per-theorem allow-list is enforced on Print Assumptions above
+
     # ---- model runner
     runner = None
     if prop.RUNNER:
@@ -509,6 +519,7 @@ def run_check(prop, tier, seed, replay=None):
             "known_findings_exercised": {k: len(v) for k, v in known_hit.items()},
             "feature_histogram": hist,
             "broken_ties": [list(b[:2]) for b in broken],
+            "coqchk": coqchk_info if coqchk_info is not None else "quick tier: not run (thorough tier runs coqchk -o on the theorem file)",
             "exhaustive": False,
         },
         "assumptions": list(prop.ASSUMPTIONS),
